@@ -17,7 +17,7 @@ am = assert_overlay()
 chk = Check('C02', 'exploration',
             'full product cells x 8 pbc settings x p0 menu (interior, faces, edge, corner, outside) x p1 relative grid '
             '{0,1/4,1/2,1/2+2^-34,3/4,1-2^-20}^3 (every pair) x broadcast shapes (1:1, 1:N, N:1, N:N, list/tuple input), plus '
-            'System.dvect/dmag by index/slice/position and displacement() in its three reference modes; a case is one '
+            'System.dvect/dmag by index/slice/position and displacement() in its three reference modes; livebox: every ordered pair of cells on ONE Box/System object changed in place (vects=, set, box_set with and without scale) between two calls; a case is one '
             '(cell,pbc,p0) row = 216+ point pairs; non-trivial = at least one pair needs a non-zero image shift')
 chk.assumptions = ['length comparisons to 1e-12 relative', 'ties between equal-length candidates accepted']
 
@@ -209,6 +209,42 @@ def system(case):
     return fails
 
 
+
+@chk.clause('livebox')
+def livebox(case):
+    """ONE Box / System object whose cell is changed in place between two calls: the second result must be a periodic
+    separation in the CURRENT cell (every ordered pair of menu cells x pbc x way of changing the cell)."""
+    (na, va), (nb, vb) = CELLS[case['a']], CELLS[case['b']]
+    o = ORIGINS[case['origin']]
+    pbc = PBCS[case['pbc']]
+    fails = []
+    rel0, REL = P0REL[2], P1REL[::3]
+    for how in ('vects=', 'set', 'box_set', 'box_set-scale'):
+        box = am.Box(vects=va, origin=o)
+        p0, P1 = rel0 @ va + o, REL @ va + o
+        if how.startswith('box_set'):
+            sysm = am.System(atoms=am.Atoms(pos=np.vstack([p0, P1])), box=box, pbc=pbc)
+            first = sysm.dvect(0, slice(1, None))
+            fails += judge(first, sysm.dmag(0, slice(1, None)), P1 - p0, va, pbc, np.ones(len(P1), bool), 'live-first')
+            sysm.box_set(vects=vb, origin=o, scale=(how == 'box_set-scale'))
+            pos = np.array(sysm.atoms.pos)
+            d = pos[1:] - pos[0]
+            fails += judge(sysm.dvect(0, slice(1, None)), sysm.dmag(0, slice(1, None)), d, vb, pbc,
+                           np.full(len(d), how == 'box_set-scale'), 'live-' + how)
+            s2 = am.System(atoms=am.Atoms(pos=pos + 0.21 * vb[1]), box=sysm.box, pbc=pbc)
+            fails += judge(am.displacement(sysm, s2), None, np.tile(0.21 * vb[1], (len(pos), 1)), vb, pbc, np.zeros(len(pos), bool), 'live-disp-' + how)
+        else:
+            fails += judge(am.dvect(p0, P1, box, pbc), am.dmag(p0, P1, box, pbc), P1 - p0, va, pbc, np.ones(len(P1), bool), 'live-first')
+            if how == 'vects=':
+                box.vects = vb
+            else:
+                box.set(vects=vb, origin=o)
+            q0, Q1 = rel0 @ vb + o, REL @ vb + o
+            fails += judge(am.dvect(q0, Q1, box, pbc), am.dmag(q0, Q1, box, pbc), Q1 - q0, vb, pbc, np.ones(len(Q1), bool), 'live-' + how)
+        if fails:
+            break
+    return fails
+
 def gen():
     for ci in range(len(CELLS)):
         for oi in range(len(ORIGINS)):
@@ -216,6 +252,12 @@ def gen():
                 for p0 in range(len(P0REL)):
                     yield 'pairs', {'cell': ci, 'origin': oi, 'pbc': pi, 'p0': p0}
                 yield 'system', {'cell': ci, 'origin': oi, 'pbc': pi}
+    # one live Box / System whose cell is changed in place between calls: every ordered pair of cells
+    for a in range(len(CELLS)):
+        for b in range(len(CELLS)):
+            if a != b:
+                for pi in (7, 5, 2) if not THOROUGH else range(len(PBCS)):
+                    yield 'livebox', {'a': a, 'b': b, 'origin': (a + b) % 2, 'pbc': pi}
 
 
 if __name__ == '__main__':
